@@ -29,7 +29,10 @@ def blank(i, op):
     return {"id": i, "op": op, "outcome": "", "p": NULLPATH, "q": NULLPATH, "result": NULLPATH, "len": 0, "a": 0, "b": 0,
             "simp": [], "rebuilt": NULLPATH, "rebuilt_eq": True, "doc": V("none"), "keys": [], "datum": V("none"),
             "concrete": True, "unchanged": True, "paths": [], "predicted": [], "rcond": {"t": "null"}, "is_value": False,
-            "is_key": False, "is_index": False, "nleaves": 0, "nops": 0, "table": [], "reasons": []}
+            "is_key": False, "is_index": False, "nleaves": 0, "nops": 0, "table": [], "reasons": [],
+            "iter": [], "items": [], "is_list": False, "eq_copy": True, "eq_other": False, "rcond2": {"t": "null"}, "bop": "and",
+            "res": [], "data": [], "ppe": [], "ce": [], "cf": [], "same_as_cond": True, "other_source": "",
+            "item_fail_ok": True, "cond_res": []}
 
 
 def build_path(rparts):
@@ -45,7 +48,7 @@ def make_events(rng, n):
     evs = []
     for _ in range(n):
         doc = gen.document(rng, depth=3, strish=0.7)
-        k = rng.randrange(8)
+        k = rng.randrange(12)
         e = None
         try:
             if k == 0:
@@ -111,6 +114,80 @@ def make_events(rng, n):
                         for kk in range(len(p)):
                             t = pred[f"{p[0:kk]!r}"]
                             e["predicted"].append({"r": r, "k": kk, "type": t.name})
+            elif k == 8:
+                e = blank(len(evs) + 1, "data_api")
+                d = rng.choice([doc, doc, doc, gen.value(rng, 2), [], {}, "ab", 3, None])
+                e["doc"] = enc_val(d)
+                out, D = outcome_of(lambda: valida.Data(d))
+                e["outcome"] = out
+                if D is not None:
+                    import copy
+                    e["len"] = len(D)
+                    e["iter"] = [enc_val(x) for x in D]
+                    e["items"] = [enc_val(D[j]) for j in range(len(D))]
+                    e["is_list"] = bool(D.is_list)
+                    e["result"] = enc_val(D.get_original())
+                    other = copy.deepcopy(d)
+                    if isinstance(other, list):
+                        other.append(0)
+                    else:
+                        other["zz"] = 0
+                    e["eq_copy"] = bool(D == valida.Data(copy.deepcopy(d))) and bool(D.original == d)
+                    e["eq_other"] = bool(D == valida.Data(other))
+            elif k in (9, 10):
+                e = blank(len(evs) + 1, "fd_algebra")
+                kinds = gen.VALUE_KINDS if isinstance(doc, list) or rng.random() < 0.6 else gen.VALUE_KINDS + gen.KEY_KINDS
+                t1 = gen.tree_recipe(rng, depth=rng.randint(0, 2), kinds=kinds, null_p=0.08)
+                t2 = gen.tree_recipe(rng, depth=rng.randint(0, 2), kinds=kinds, null_p=0.08)
+                e["rcond"], e["rcond2"], e["doc"] = enc_tree(t1), enc_tree(t2), enc_val(doc)
+                e["bop"] = rng.choice(["and", "or", "xor"])
+                o1, c1 = outcome_of(lambda: gen.build_tree(t1))
+                o2, c2 = outcome_of(lambda: gen.build_tree(t2))
+                if c1 is None or c2 is None:
+                    continue
+                D = valida.Data(doc)
+                import operator
+                pyop = {"and": operator.and_, "or": operator.or_, "xor": operator.xor}[e["bop"]]
+                out, fd = outcome_of(lambda: pyop(c1.filter(D), c2.filter(D)))
+                e["outcome"] = out
+                if fd is not None:
+                    e["res"] = [bool(x) for x in fd.result]
+                    e["data"] = [enc_val(x) for x in fd.data]
+                    e["keys"] = [enc_val(x) for x in fd.keys]
+                    e["ppe"] = [bool(x) for x in fd.pre_processor_error]
+                    e["ce"] = [bool(x) for x in fd.callable_error]
+                    e["cf"] = [bool(x) for x in fd.callable_false]
+                    kindsm = {"Condition pre-processor raised": "pre", "Condition callable raised": "err",
+                              "Condition callable returned False": "false"}
+                    e["reasons"] = [[next(v for kk, v in kindsm.items() if m.startswith(kk)) for m in f]
+                                    for f in fd.get_all_failures()]
+                    o3, both = outcome_of(lambda: pyop(c1, c2).filter(D))
+                    if both is None:
+                        continue
+                    e["cond_res"] = [bool(x) for x in both.result]
+                    e["same_as_cond"] = both is not None and list(both.result) == list(fd.result) and \
+                        both.data == fd.data and both.keys == fd.keys
+                    e["other_source"] = outcome_of(lambda: pyop(c1.filter(D), c2.filter(valida.Data(doc))))[0]
+            elif k == 11:
+                e = blank(len(evs) + 1, "filter_paths")
+                t = gen.tree_recipe(rng, depth=rng.randint(0, 2), kinds=gen.VALUE_KINDS, null_p=0.05)
+                vals = [gen.value(rng, 1) for _ in range(rng.randint(1, 4))]
+                paths = [tuple(rng.choice(["a", "b", 0, 1, 2]) for _ in range(rng.randint(0, 3))) for _ in vals]
+                e["rcond"], e["doc"] = enc_tree(t), enc_val(vals)
+                e["paths"] = [enc_val(p) for p in paths]
+                out, c = outcome_of(lambda: gen.build_tree(t))
+                if c is None:
+                    continue
+                out, fd = outcome_of(lambda: c.filter(list(zip(vals, paths)), data_has_paths=True))
+                e["outcome"] = out
+                if fd is not None:
+                    e["res"] = [bool(x) for x in fd.result]
+                    e["data"] = [enc_val(x) for x in fd.data]
+                    items = list(fd)
+                    e["items"] = [{"source": enc_val(it.source), "result": bool(it.result), "path": enc_val(it.concrete_path)}
+                                  for it in items]
+                    e["item_fail_ok"] = all(it.get_failure() == fd.get_failure_by_index(j) and
+                                            fd[j].concrete_path == it.concrete_path for j, it in enumerate(items))
             elif k in (6, 7):
                 e = blank(len(evs) + 1, "reasons")
                 t = gen.tree_recipe(rng, depth=rng.randint(0, 3), kinds=gen.VALUE_KINDS, null_p=0.05)
